@@ -154,6 +154,21 @@ Definition do_lock (E : env) (s : state) (a : acct) (x : txid) : state * out :=
               bal := bal s; log := log s |}, Ok)
   end.
 
+(* runERC20Lock (action/eth/ext_ERC20Lock.go), store effect only: the token checks and the cap are
+   folded into the oracle [x_erc_ok]; there is NO existence check on any of the three stores and
+   the failed store is not cleaned; the tracker is written over whatever is in the ongoing store.
+   Not part of [op]/[step]: the ERC-20 mint/burn side (a second currency) is not modelled, see
+   props/C15.v (7b) and the known finding C15.erc20_lock_no_existence_check. *)
+Definition do_lock_erc (E : env) (x_erc_ok : txid -> bool) (s : state) (a : acct) (x : txid) : state * out :=
+  if negb (x_erc_ok x) then (s, Fail)
+  else
+    let n := x_name (e_tx E x) in
+    (upd_ongoing s (<[n := new_tracker T_LOCKERC a x n (e_wits E)]> (ongoing s)), Ok).
+
+(* C15.erc20_lock_no_existence_check: an ERC-20 lock whose name is already in one of the stores *)
+Definition trig_erc_relock (E : env) (s : state) (x : txid) : bool :=
+  let n := x_name (e_tx E x) in has (ongoing s) n || has (passed s) n || has (failed s) n.
+
 (* runRedeem *)
 Definition do_redeem (E : env) (s : state) (a : acct) (x : txid) : state * out :=
   let info := e_tx E x in
@@ -188,14 +203,15 @@ Definition do_report (E : env) (s : state) (n : name) (locker v : acct) (idx : Z
         | AVOk t' =>
             if finalizedb t' then
               if t_type t' =? T_LOCK then
-                (* mintTokens: the beneficiary is the Locker field of THIS report *)
+                (* mintTokens: the beneficiary is tracker.ProcessOwner (since /repo b01fdf0; before, it
+                   was the Locker field of THIS report); the report's Locker field is not used *)
                 match x_lock (e_tx E (t_tx t')) with
                 | None => (s, Fail)
                 | Some amt =>
                     ({| ongoing := <[n := set_state t' S_RELEASED]> (ongoing s);
                         passed := passed s; failed := failed s;
-                        bal := credit (credit (bal s) locker amt) (e_supply E) amt;
-                        log := Minted n locker amt :: log s |}, Ok)
+                        bal := credit (credit (bal s) (t_owner t') amt) (e_supply E) amt;
+                        log := Minted n (t_owner t') amt :: log s |}, Ok)
                 end
               else if t_type t' =? T_REDEEM then
                 (* burnTokens: the debit happened at redeem time *)
@@ -316,9 +332,10 @@ Definition supply_ok (E : env) (s : state) : Prop :=
 
 (* trigger predicates of the known findings (boolean, over the step input) *)
 
-(* C15.mint_to_report_locker: a report for an ongoing lock tracker names a Locker that is not the
-   tracker's owner *)
-Definition trig_locker (s : state) (o : op) : bool :=
+(* a report for an ongoing lock tracker that names a Locker other than the tracker's owner (the
+   input class of the former finding C15.mint_to_report_locker, fixed by /repo b01fdf0; kept for
+   the generator statistics and the regression example) *)
+Definition lying_locker (s : state) (o : op) : bool :=
   match o with
   | Report n l _ _ _ =>
       match ongoing s !! n with
@@ -329,13 +346,12 @@ Definition trig_locker (s : state) (o : op) : bool :=
   end.
 
 (* C15.supply_address_transacts: the supply address is the source or the target of a wrapped-token
-   movement requested by the operation (as sender, as the Locker named in a report, as the owner
-   of the tracker a report is about, or as an end of a transfer) *)
+   movement requested by the operation (as sender, as the owner of the tracker a report is about,
+   or as an end of a transfer) *)
 Definition trig_supply (E : env) (s : state) (o : op) : bool :=
   match o with
   | Lock a _ | Redeem a _ => N.eqb a (e_supply E)
-  | Report n l _ _ _ =>
-      N.eqb l (e_supply E) ||
+  | Report n _ _ _ _ =>
       match ongoing s !! n with Some t => N.eqb (t_owner t) (e_supply E) | None => false end
   | Transfer f t _ => N.eqb f (e_supply E) || N.eqb t (e_supply E)
   | EndBlock _ _ => false
